@@ -453,8 +453,9 @@ def run(ctx):
     for partner in partners:
         try:
             pspecs = gen_power_specs(rng, partner)
-        except Exception as e:
-            ctx.stat("power:gen-error:" + type(e).__name__)
+        except Exception as e:     # the real code failed while proposing bounds / building k tables for a valid partner
+            ctx.compare(dict(op="power-setup", partner=partner), {"error": type(e).__name__ + ":" + str(e)[:80]}, "ok",
+                        note="C08 real code raised on a valid harmonic partner")
             continue
         for ps in pspecs:
             check_power(ctx, ps, reqs, posts)
